@@ -94,12 +94,27 @@ type c19Big struct {
 }
 
 func vh_C19_StableAtScale() {
-	n := vfRange("n", 13, 14)
+	// 13..14 records (beyond sort.Slice's insertion-sort range), and sizes taken from the code: just beyond every integer
+	// constant the sorting functions compare a length with (a fast path, a cut-over between algorithms)
+	n := vfProbe("n", "Sort|sort", 13, 14)
+	if n > 20 {
+		n = 20 // the sort.SliceStable model covers n <= 20
+	}
 	in := make([]c19Rec, n)
 	rows := make([]c19Big, n)
+	shape := vfChoose("key-shape", 4) // scattered with many ties / descending in pairs / all equal / ascending in pairs
 	for i := range in {
-		in[i] = c19Rec{K: (i * 7) % 3, Idx: i}
-		rows[i] = c19Big{K: NewComparableOrdered((i * 7) % 3), Idx: i}
+		k := (i * 7) % 3
+		switch shape {
+		case 1:
+			k = (n - i) / 2
+		case 2:
+			k = 1
+		case 3:
+			k = i / 2
+		}
+		in[i] = c19Rec{K: k, Idx: i}
+		rows[i] = c19Big{K: NewComparableOrdered(k), Idx: i}
 	}
 	orig := c19Copy(in)
 	less := func(a, b c19Rec) bool { return a.K < b.K }
